@@ -77,9 +77,9 @@ Definition cls_row (num chg nb : Z) (indb : bool) (codes : list Z) : bool :=
 (* the search _kekule_component: first yields, raise flag *)
 Definition E (a p o : Z) : kentry := (a, p, o).
 Definition kentry_eqb (x y : kentry) : bool := let '(a, p, o) := x in let '(a', p', o') := y in (a =? a') && (p =? p') && (o =? o').
-Definition kc_ok (rings : adjl) (db : list Z) (dbs : Z) (pyr : list Z) (bs maxy : Z) (ys : list (list kentry)) (raised : bool) : bool :=
+Definition kc_ok (rings : adjl) (db : list Z) (dbs : Z) (pyr : list Z) (bs maxy : Z) (ys : list (list kentry)) (raised : bool) (sound : list bool) : bool :=
   match kekule_component rings db dbs pyr bs (Z.to_nat maxy) (Z.to_nat 30000) with
-  | Ok (ys', r, _) => list_eqb (list_eqb kentry_eqb) ys' ys && Bool.eqb r raised
+  | Ok (ys', r, _) => list_eqb (list_eqb kentry_eqb) ys' ys && Bool.eqb r raised && list_eqb Bool.eqb (map (form_sound rings db pyr) ys') sound
   | Err _ => false
   end.
 (* the per-atom function alone, for the states that reach the atom loop *)
@@ -796,10 +796,11 @@ class Pipe:
                     self.bad(True, f'kekule-crash:{type(e).__name__}:{label}', f'_kekule_component raises {type(e).__name__}', label, repr(e), 'forms or InvalidAromaticRing',
                              'exception class', None)
                     continue
-                rt = lst([tup(zraw(n), lst(ms, zraw)) for n, ms in rings.items()])
-                yt = lst([lst([f'E {zraw(a)} {zraw(p_)} {o}' for a, p_, o in y]) for y in ys])
-                cases.append((f'kc_ok {rt} {lst(dbl, zraw)} {zraw(dbs)} {lst(pyr, zraw)} {bs} {k_yields} {yt} {b(raised)}',
-                              ('search', label, list(m0._atoms), bs), 'prep'))
+                verdicts = [form_unsound(rings, set(dbl), set(pyr), y) for y in ys]
+                for y, v in zip(ys, verdicts):
+                    if v:
+                        report_unsound(self.ck, rings, dbl, pyr, bs, y, v, label)
+                cases.append((kc_case(rings, dbl, dbs, pyr, bs, k_yields, ys, raised, verdicts), ('search', label, list(m0._atoms), bs), 'prep'))
                 self.ck.case(('search', label, tuple(m0._atoms), bs, tuple(rings)), nontrivial=bool(ys))
                 self.ck.count(f'search: buffer={bs}: {"InvalidAromaticRing" if raised else str(len(ys)) + " form(s) compared"}')
 
@@ -966,6 +967,155 @@ def same_structure(s1, s2):
     return c1 is not None and c1 == c2
 
 
+def kc_case(rings, dbl, dbs, pyr, bs, k_yields, ys, raised, verdicts):
+    rt = lst([tup(zraw(n), lst(ms, zraw)) for n, ms in rings.items()])
+    yt = lst([lst([f'E {zraw(a)} {zraw(p_)} {o}' for a, p_, o in y]) for y in ys])
+    return f'kc_ok {rt} {lst(dbl, zraw)} {zraw(dbs)} {lst(pyr, zraw)} {bs} {k_yields} {yt} {b(raised)} {lst([b(not v) for v in verdicts])}'
+
+
+def form_unsound(rings, db, pyr, path):
+    """independent statement of Model.Kekule.form_sound: None when `path` places every skeleton bond exactly once with order
+    1 or 2 and gives double_bonded atoms no, plain atoms exactly one, pyrrole-type atoms at most one double bond"""
+    import collections
+    bonds = {frozenset((n, m)) for n, ms in rings.items() for m in ms}
+    seen = collections.Counter(frozenset((a, p_)) for a, p_, _ in path)
+    if set(seen) != bonds or any(v != 1 for v in seen.values()):
+        return 'a skeleton bond is placed twice / left out'
+    if any(o not in (1, 2) for *_, o in path):
+        return 'bond order outside 1, 2'
+    d = collections.Counter()
+    for a, p_, o in path:
+        if o == 2:
+            d[a] += 1
+            d[p_] += 1
+    for n in rings:
+        if n in db:
+            if d[n]:
+                return f'double_bonded atom {n} got a ring double bond'
+        elif n in pyr:
+            if d[n] > 1:
+                return f'pyrrole-type atom {n} got {d[n]} double bonds'
+        elif d[n] != 1:
+            return f'plain ring atom {n} got {d[n]} double bonds'
+    return None
+
+
+def report_unsound(ck, rings, dbl, pyr, bs, y, why, label):
+    """an unsound form of the real search.  Recorded finding: a pyrrole-type atom with three skeleton neighbours"""
+    call = f'_kekule_component({rings!r}, {set(dbl)!r}, {set(pyr)!r}, {bs})'
+    if any(len(rings[n]) == 3 for n in pyr):
+        key = 'search-unsound:pyrrole-type-atom-with-three-ring-neighbours'
+    else:
+        key = f'search-unsound:{call}'[:200]
+    ck.counterexample(key, f'_kekule_component yields a form that is no perfect matching of the atoms that need a double bond ({why})',
+                      {'input': label, 'call': call}, {'form': y}, 'every skeleton bond once; one double bond per plain ring atom', 'independent matching checker',
+                      replay_py=f'from itertools import islice\nfrom chython.algorithms.aromatics.kekule import _kekule_component\nprint(list(islice({call}, 8)))')
+
+
+def random_ring_graph(rng, n):
+    """connected simple graph with two or three neighbours per node: a cycle plus chords; random insertion orders"""
+    order = list(range(1, n + 1))
+    rng.shuffle(order)
+    adj = {v: [] for v in order}
+    for i in range(n):
+        a, c = order[i], order[(i + 1) % n]
+        adj[a].append(c)
+        adj[c].append(a)
+    for _ in range(rng.randint(0, n // 2)):
+        a, c = rng.sample(order, 2)
+        if c not in adj[a] and len(adj[a]) < 3 and len(adj[c]) < 3:
+            adj[a].append(c)
+            adj[c].append(a)
+    return shuffled(rng, adj)
+
+
+def fused_ring_graph(rng, k):
+    """ring system made by fusing k more 5-, 6- or 7-membered rings onto a first one (no small rings)"""
+    adj = {}
+
+    def add(a, c):
+        adj.setdefault(a, [])
+        adj.setdefault(c, [])
+        if c not in adj[a]:
+            adj[a].append(c)
+            adj[c].append(a)
+    size = rng.choice([5, 6, 6, 7])
+    nxt = size + 1
+    edges = [(i, i % size + 1) for i in range(1, size + 1)]
+    for a, c in edges:
+        add(a, c)
+    for _ in range(k):
+        cand = [(a, c) for a, c in edges if len(adj[a]) == 2 and len(adj[c]) == 2]
+        if not cand:
+            break
+        a, c = rng.choice(cand)
+        size = rng.choice([5, 6, 6, 7])
+        chain = [a] + list(range(nxt, nxt + size - 2)) + [c]
+        nxt += size - 2
+        for x, y in zip(chain, chain[1:]):
+            add(x, y)
+            edges.append((x, y))
+    return shuffled(rng, adj)
+
+
+def shuffled(rng, adj):
+    keys = list(adj)
+    rng.shuffle(keys)
+    out = {}
+    for k in keys:
+        ms = adj[k][:]
+        rng.shuffle(ms)
+        out[k] = ms
+    return out
+
+
+WITNESS = ({4: [2, 3, 7], 1: [7, 3], 5: [2, 6], 6: [2, 3, 5], 7: [4, 1], 2: [4, 5, 6], 3: [6, 4, 1]}, [6], [1, 3, 5, 7])   # KekuleExt.unsound_rings
+
+
+def search_fuzz(ck, cs, n_graphs, n_coq):
+    """the search on arbitrary well-formed components (not only those of molecules): real _kekule_component against the
+    independent matching checker, and (a sample) against the Coq model.  The witness of kekule_component_sound_refuted first."""
+    from chython.algorithms.aromatics.kekule import _kekule_component
+    from chython.exceptions import InvalidAromaticRing
+    rng = random.Random(f'{ck.seed}:c05:fuzz')
+    todo = [WITNESS]
+    for j in range(n_graphs):
+        rings = fused_ring_graph(rng, rng.randint(0, 3)) if j % 2 else random_ring_graph(rng, rng.randint(3, 12))
+        atoms = list(rings)
+        db = [a for a in atoms if rng.random() < 0.15]
+        pyr = [a for a in atoms if a not in db and rng.random() < 0.22]
+        todo.append((rings, db, pyr))
+    cases = []
+    for j, (rings, dbl, pyr) in enumerate(todo):
+        for bs in (7, 0):
+            db2 = set(dbl)
+            dbs = next(iter(db2)) if db2 else 0
+            raised = False
+            try:
+                ys = list(itertools.islice(_kekule_component({n: list(ms) for n, ms in rings.items()}, db2, set(pyr), bs), 4))
+            except InvalidAromaticRing:
+                ys, raised = [], True
+            except Exception as e:
+                ck.counterexample(f'search-crash:{type(e).__name__}', f'_kekule_component raises {type(e).__name__} on a well-formed component',
+                                  {'rings': rings, 'double_bonded': dbl, 'pyrroles': pyr, 'buffer_size': bs}, repr(e), 'forms or InvalidAromaticRing', 'exception class')
+                continue
+            verdicts = [form_unsound(rings, set(dbl), set(pyr), y) for y in ys]
+            for y, v in zip(ys, verdicts):
+                if v:
+                    report_unsound(ck, rings, dbl, pyr, bs, y, v, 'generated component' if j else 'witness of kekule_component_sound_refuted')
+            three = any(len(rings[n]) == 3 for n in pyr)
+            ck.case(('fuzz', j, bs), nontrivial=bool(ys))
+            ck.count(f'search fuzz: {"InvalidAromaticRing" if raised else "forms"}' + (' (3-neighbour pyrrole atom present)' if three else ''))
+            if any(verdicts):
+                ck.count('search fuzz: unsound form')
+            if j < n_coq:
+                cases.append((kc_case(rings, dbl, dbs, pyr, bs, 4, ys, raised, verdicts), ('search', f'generated component {j}', [], bs), 'prep'))
+    if todo and not any(form_unsound(WITNESS[0], set(WITNESS[1]), set(WITNESS[2]), y)
+                        for y in itertools.islice(_kekule_component({n: list(ms) for n, ms in WITNESS[0].items()}, set(WITNESS[1]), set(WITNESS[2]), 7), 4)):
+        ck.count('witness of kekule_component_sound_refuted is sound on the real code now: the model has to follow the code')
+    cs.add([], cases)
+
+
 VIEWS = (('str', str), ('aromatic_rings', lambda m: sorted(map(tuple, m.aromatic_rings))), ('brutto', lambda m: sorted(m.brutto.items())),
          ('hybridization', lambda m: [a.hybridization for _, a in m.atoms()]), ('rings_count', lambda m: m.rings_count))
 
@@ -1121,11 +1271,12 @@ def run(ck):
                         'test/heterocycles_charges.smi, a lipophilicity.csv sample; each also under one random renumbering. non-trivial = the molecule has '
                         'aromatic bonds and the conversion produced a form (not InvalidAromaticRing); grid: the state is accepted; search: the generator yielded')
     t00 = time.time()
-    proved = common.standard_proof_steps(ck, translators=[])
+    proved = common.standard_proof_steps(ck, translators=['elements'])
     t_proof = time.time()
     rules_need_aromatic_atom(ck)
     cs = Cases('c05')
     corr_grid(ck, cs)
+    search_fuzz(ck, cs, 1200 if ck.tier == 'quick' else 20000, 300 if ck.tier == 'quick' else 1500)
     t_grid = time.time()
     pipe = Pipe(ck, cs)
     rng = random.Random(f'{ck.seed}:c05:renumber')
